@@ -50,7 +50,7 @@ FIRST = {
     "C02-H": "missed (a fresh Tag per value) -> one Tag object refilled and re-encoded for every member of a list",
     "C09-H": "missed -> one message object sent twice through the codec with a change in between",
     "C14-I": "missed -> EarlySuspend (a remembered installation taken back before the manager exists)",
-    "C14-J": "NOT caught: the interval / offset of a recurring task are constants of Kernel.tla; re-installing one task object with other parameters is not modelled (DESIGN 9.6)",
+    "C14-J": "missed (interval and offset were constants of the model) -> off variable, InstallRecOff (the same task object installed again with an explicit offset)",
     "C19-I": "missed (the rigs probed with the node's own application packets only) -> transit probe: a two-port node forwards a packet for every destination network (TransitFollowsKnowledge)",
     "C19-J": "missed (network numbers were small) -> two of the four destination networks and one source network beyond 32767; also caught by C08",
     "C15-I": "missed by C15 (values are compared as encoded by the same library); caught by C01 (bit strings of 8n bits)",
